@@ -18,8 +18,7 @@ PROP = "C13"
 LEVEL = "exploration"
 SHARDS = {"quick": 8, "thorough": 16}
 TIMEOUT = {"quick": 1500, "thorough": 10800}
-REQUIRED = {"seq.event": 3000, "thr.event": 1500, "root_unchanged": 100, "children_conservation": 50, "concat": 100,
-            "generator": 200, "ckd_state": 1000}
+REQUIRED = {"seq.event": 3000, "thr.event": 1500, "root_unchanged": 100, "concat": 100, "generator": 200}
 ANCHORS = ['base_wallet:BaseWallet.by_path', 'base_wallet:BaseWallet.address_generator', 'bip32:PrvKeyNode.ckd', 'bip32:PubKeyNode.ckd', 'bip32:PubKeyNode.generate_children', 'bip32:PubKeyNode.derive_path', 'base_wallet:BaseWallet.node_extended_keys', 'paper_wallet:PaperWallet.generate']
 RULE = ("random programs of 50-500 API calls (by_path, ckd, generate_children, derive_path, address generator next/send, five "
         "address kinds, node_extended_keys, extended keys, str, fingerprint, BIP85, generate/json/wasabi_json) over a pool of "
@@ -452,19 +451,21 @@ def quiescent_checks(ctx, world, prefix):
             ok = bytes(node.key) == ref.sec() and bytes(node.chain_code) == ref.c
         ctx.judge("root_unchanged", ok, {"world": world.tag, "wallet": wid, "mode": prefix}, ref.fields(), bridge.node_obs(node), cls="root|" + wid,
                   mech="C13.root_changed")
-    # children conservation: every successful ckd appended exactly one child
-    bad = []
-    checked = 0
+    # children bookkeeping (len(children) == successful ckd calls): an OBSERVATION about internal state, not a clause of the
+    # property (a library that memoises children would legitimately differ) - reported in the evidence, never a verdict
+    differs, checked = 0, 0
     nodes = {id(h.node): h.node for h in world.touched.values()}
     for w in world.wallets.values():
         nodes[id(w.master)] = w.master
     for nid, node in nodes.items():
-        want = world.ckd_ok.get(nid, 0)
         checked += 1
-        if len(node.children) != want:
-            bad.append((str(node), want, len(node.children)))
-    ctx.judge("children_conservation", not bad, {"world": world.tag, "nodes": checked, "mode": prefix}, "len(children) == successful ckd calls", bad[:5],
-              cls="cons|" + prefix, mech="C13.children_conservation")
+        try:
+            if len(node.children) != world.ckd_ok.get(nid, 0):
+                differs += 1
+        except Exception:  # noqa
+            differs += 1
+    ctx.extra["children_count_checked_nodes"] = ctx.extra.get("children_count_checked_nodes", 0) + checked
+    ctx.extra["children_count_differs_from_ckd_calls"] = ctx.extra.get("children_count_differs_from_ckd_calls", 0) + differs
 
 
 def install_probes(ctx, holder):
@@ -472,6 +473,10 @@ def install_probes(ctx, holder):
     inst = probes.Installed()
 
     def rec(name, ok, self, result, old):
+        if name.endswith("(observation)"):
+            k = "children_bookkeeping_" + ("as_before" if ok else "differs")
+            ctx.extra[k] = ctx.extra.get(k, 0) + 1
+            return
         ctx.judge("ckd_state", ok, None if ok else {"contract": name, "parent": bridge.node_obs(self)}, old, None, cls=name, mech="C13." + name)
 
     def count(name, a, kw, res, exc):
@@ -482,8 +487,8 @@ def install_probes(ctx, holder):
                     w.ckd_ok[id(a[0])] = w.ckd_ok.get(id(a[0]), 0) + 1
 
     for cls in (b32.PubKeyNode, b32.PrvKeyNode):
-        probes.contract_ckd_state(inst, cls, rec)
-        probes.observe_method(inst, cls, "ckd", count)
+        probes.try_install(ctx, "icontract %s.ckd" % cls.__name__, probes.contract_ckd_state, inst, cls, rec)
+        probes.try_install(ctx, "observe %s.ckd" % cls.__name__, probes.observe_method, inst, cls, "ckd", count)
     return inst
 
 
